@@ -159,9 +159,13 @@ func (p *pr) expr(e ast.Expr) string {
 		}
 	case *ast.CallExpr:
 		switch s := sel(v.Fun); s {
-		case "uint64", "time.Duration", "int":
+		case "uint64", "time.Duration":
 			if len(v.Args) == 1 {
 				return p.expr(v.Args[0])
+			}
+		case "int": // conversion of a uint64 number of seconds to a hit-counter-sized int
+			if len(v.Args) == 1 {
+				return "((" + p.expr(v.Args[0]) + " : Nat) : Int)"
 			}
 		case "c.Response().StatusCode":
 			return p.param("status")
@@ -176,6 +180,8 @@ func (p *pr) expr(e ast.Expr) string {
 				return l
 			}
 			return l + " " + v.Op.String() + " " + r
+		case token.QUO: // only between hit counters (Go int): truncates toward zero
+			return "Int.tdiv " + l + " " + r
 		case token.LSS, token.LEQ, token.GTR, token.GEQ:
 			op := map[token.Token]string{token.LSS: "<", token.LEQ: "≤", token.GTR: ">", token.GEQ: "≥"}[v.Op]
 			return "decide (" + l + " " + op + " " + r + ")"
@@ -204,7 +210,7 @@ func (p *pr) sub(e ast.Expr) string {
 	if _, ok := e.(*ast.BinaryExpr); ok && !strings.HasPrefix(s, "decide (") {
 		return "(" + s + ")"
 	}
-	return s
+	return s // casts print with their own parentheses
 }
 
 func leanDef(name string, e ast.Expr, res string) string {
@@ -230,7 +236,8 @@ func leanDef(name string, e ast.Expr, res string) string {
 
 type facts struct {
 	freshExp, rollCond, rollExp, elapsed, gapCond, gapExp, alignedExp ast.Expr
-	reset, remaining, rejectCond, ttl1                            ast.Expr
+	reset, remaining, rejectCond, ttl1, rate                      ast.Expr
+	hdrs                                                          []string
 	skipCond, unhitGuard, unhitTTL                                ast.Expr
 	unhitCases                                                    []ast.Expr
 }
@@ -266,8 +273,27 @@ func mentions(e ast.Expr, name string) bool {
 	return found
 }
 
+// every `c.Set(<header>, strconv.<Fmt>(<local>, ...))` of the closure, in source order: "header=local"
+func headerSets(body *ast.BlockStmt) []string {
+	var out []string
+	ast.Inspect(body, func(n ast.Node) bool {
+		c, ok := n.(*ast.CallExpr)
+		if !ok || sel(c.Fun) != "c.Set" || len(c.Args) != 2 {
+			return true
+		}
+		val := "?"
+		if in, ok := c.Args[1].(*ast.CallExpr); ok && strings.HasPrefix(sel(in.Fun), "strconv.") && len(in.Args) >= 1 {
+			val = sel(in.Args[0])
+		}
+		out = append(out, sel(c.Args[0])+"="+val)
+		return true
+	})
+	return out
+}
+
 func collect(body *ast.BlockStmt) facts {
 	var f facts
+	f.hdrs = headerSets(body)
 	sets := 0
 	for _, st := range body.List {
 		switch v := st.(type) {
@@ -316,6 +342,8 @@ func collect(body *ast.BlockStmt) facts {
 					f.reset = v.Rhs[0]
 				case "remaining":
 					f.remaining = v.Rhs[0]
+				case "rate":
+					f.rate = v.Rhs[0]
 				}
 			}
 		case *ast.ExprStmt:
@@ -372,6 +400,7 @@ func main() {
 	w.WriteString(leanDef("fixedTtl", ff.ttl1, "Nat"))
 	w.WriteString(leanDef("fixedSkipCond", ff.skipCond, "Bool"))
 	w.WriteString(leanDef("fixedUnhitGuard", ff.unhitGuard, "Bool"))
+	fmt.Fprintf(&w, "def fixedHeaders : List String := %s\n", strList(ff.hdrs))
 	w.WriteString("\n/-! limiter_sliding.go -/\n")
 	fmt.Fprintf(&w, "def slidingOrder : List String := %s\n", strList(events(sb)))
 	w.WriteString(leanDef("slidingFreshExp", sf.freshExp, "Nat"))
@@ -381,6 +410,7 @@ func main() {
 	w.WriteString(leanDef("slidingGapExp", sf.gapExp, "Nat"))
 	w.WriteString(leanDef("slidingAlignedExp", sf.alignedExp, "Nat"))
 	w.WriteString(leanDef("slidingReset", sf.reset, "Nat"))
+	w.WriteString(leanDef("slidingRate", sf.rate, "Int"))
 	w.WriteString(leanDef("slidingRemaining", sf.remaining, "Int"))
 	w.WriteString(leanDef("slidingRejectCond", sf.rejectCond, "Bool"))
 	w.WriteString(leanDef("slidingTtl", sf.ttl1, "Nat"))
@@ -392,6 +422,7 @@ func main() {
 	}
 	w.WriteString(leanDef("slidingUnhitCurCase", sf.unhitCases[0], "Bool"))
 	w.WriteString(leanDef("slidingUnhitPrevCase", sf.unhitCases[1], "Bool"))
+	fmt.Fprintf(&w, "def slidingHeaders : List String := %s\n", strList(sf.hdrs))
 	w.WriteString("\nend C13.Facts\n")
 	if err := os.WriteFile(*out, []byte(w.String()), 0o644); err != nil {
 		die("%v", err)
